@@ -1,7 +1,7 @@
 (* Properties/C10.v — structural marginalisation equals marginal inference. *)
 From Coq Require Import List Arith ZArith Ring Bool.
 From DV Require Import Model.Core Model.Clt Model.Leaves Model.Check Model.Marg
-  Proofs.CoreFacts Proofs.HeapFacts Proofs.MargFacts.
+  Proofs.CoreFacts Proofs.HeapFacts Proofs.ToPcFacts Proofs.MargFacts Proofs.MargClt.
 Import ListNotations.
 
 Section C10.
@@ -42,6 +42,15 @@ Section C10.
       Forall (node_pre T t0 t1 tadd tmul K rowok) t ->
       MInv T t0 t1 tadd tmul K rowok t (marg_state T t0 t1 tadd tmul K t).
   Proof. exact (marg_inv T t0 t1 tadd tmul SRth dom). Qed.
+
+  (* the premise about Chow-Liu leaves is discharged for every well-formed leaf (distinct binary
+     variables = its scope, normalised CPT rows, equal root rows) on rows that are binary on its
+     variables: to_pc + marginalise + prune returns a well-formed sub-table with the leaf's value *)
+  Theorem C10_clt_handler : forall (K : list nat) (rowok : row -> Prop) (c : clt T),
+      clt_wf T t0 t1 tadd dom c ->
+      (forall r, rowok r -> binary_on (vars T (clt_tree T t0 c)) r) ->
+      clt_handler_ok T t0 t1 tadd tmul K rowok c.
+  Proof. exact (clt_handler_discharged T t0 t1 tadd tmul SRth dom). Qed.
 End C10.
 
 (* keep sets: empty, duplicated or out-of-scope sets are rejected, all others accepted *)
@@ -66,3 +75,4 @@ Print Assumptions C10_eval.
 Print Assumptions C10_defined.
 Print Assumptions C10_pass_invariant.
 Print Assumptions C10_guard.
+Print Assumptions C10_clt_handler.
